@@ -12,6 +12,7 @@ import (
 	"strings"
 	"sync"
 	"testing"
+	"time"
 
 	"pgregory.net/rapid"
 	"verifharness/stats"
@@ -198,7 +199,16 @@ func runRapid[C any](t *testing.T, key string, base int, gen func(t *rapid.T) C,
 	}()
 	rapid.Check(t, func(rt *rapid.T) {
 		c := gen(rt)
-		if err := check(c); err != nil {
+		start := time.Now()
+		err := check(c)
+		if d := time.Since(start); d > 3*time.Second {
+			stats.Note(key, "cases_slower_than_3s", 1)
+			if os.Getenv("VERIF_SLOW") != "" {
+				raw, _ := json.Marshal(c)
+				fmt.Printf("SLOW %s %v %s\n", key, d, raw)
+			}
+		}
+		if err != nil {
 			noteFailure(key, c, err)
 			rt.Fatalf("%s: %v", key, err)
 		}
